@@ -1140,7 +1140,7 @@ def exhaustive_cases(depth, scripts):
 
 def gen_cases(seed, tier):
     rng = random.Random(seed * 1000003 + 12)
-    n = {'quick': 3600, 'thorough': 40000, 'search': 12000}[tier]
+    n = {'quick': 3600, 'thorough': 30000, 'search': 12000}[tier]
     cases = [gen_msgs_case(rng) for _ in range(n)]
     if tier == 'quick':
         for d in (1, 2):
